@@ -87,6 +87,10 @@ def mk_payload(x):
         return x[2][0]
     if k == "call" and isinstance(x[1], str) and core.callee_base(x[1]) == "core::ops::Try::branch":
         return mk_payload(x[2][0])
+    if k == "call" and isinstance(x[1], str) and core.callee_base(x[1]) in (
+            "core::convert::TryFrom::try_from", "core::convert::TryInto::try_into") and len(x[2]) == 1:
+        # integer conversion: value preserving on the Ok path
+        return x[2][0]
     if k == "some":
         return x[1]
     if k == "residual":
@@ -125,6 +129,9 @@ def _p1(t, memo):
             return mk_payload(args[0])
         if isinstance(key, str) and core.callee_base(key) == "core::ops::FromResidual::from_residual":
             return ("residual", args[0])
+        if isinstance(key, str) and core.callee_base(key) in ("core::ops::Index::index", "core::ops::IndexMut::index_mut") \
+                and len(args) == 2:
+            return ("elem", args[0], args[1])
         if isinstance(key, tuple):
             key = ("indirect", p(key[1]))
         return ("call", key, args, t[3])
